@@ -433,6 +433,12 @@ def execute(spec):
             cap = 2 * cap
         out, w, _ = simrun.run_world(world, spec["sim"], seed=seed, step_cap=cap, hooks=hooks)
         fired = sum(out["fired"].values())
+        limit = (world["args"].get("solver_options") or {}).get("time_limit", world["args"].get("time_limit"))
+        if limit is not None and out["sim_s"] > float(limit):
+            # more simulated time passed than the model's whole budget (e.g. a slow auxiliary solve that carries no
+            # limit of its own): giving up is then the documented behaviour, not a difference from the reference
+            fired += 1
+            out["fired"] = dict(out["fired"], elapsed_beyond_time_limit=1)
         if spec.get("solve_first"):
             vs += check_resolve(world, out, ref if not ref_out["system_exit"] else None, fired > 0)
         else:
